@@ -84,6 +84,41 @@ C16blocks(x, ans) ==
   /\ \A i, j \in 1..Len(ans) : i # j => ans[i] \cap ans[j] = {}
 C16tree(T, ans) == ans = SetMax({GapDegNode(x) : x \in T.nodes})
 
+
+(* ---- C16: the three notions of discontinuity, the continuous reordering, the reports ---- *)
+C16threeNotions(T, gd, refuses, cf) ==
+  LET disc == GapDeg(T) > 0 IN (gd > 0) = disc /\ refuses = disc /\ cf = ~disc
+\* gap type of a node (Maier & Lichte 2016): "pass" = the node itself has a gap, "source" = it is
+\* continuous but a child constituent has one
+GapType(T, x) == IF x.tok THEN "none"
+                 ELSE IF Cardinality(Runs(x.y)) > 1 THEN "pass"
+                 ELSE IF \E k \in Kids(T, x) : ~k.tok /\ Cardinality(Runs(k.y)) > 1 THEN "source" ELSE "none"
+RECURSIVE DiscoOrder(_, _, _)
+DiscoOrder(T, x, mode) ==
+  LET ks == KidsSeq(T, x) IN
+  IF x.tok THEN <<x>>
+  ELSE IF Len(ks) = 1 THEN DiscoOrder(T, ks[1], mode)
+  ELSE IF mode = "rightd" /\ GapType(T, x) = "source"
+       THEN DiscoOrder(T, ks[2], mode) \o DiscoOrder(T, ks[1], mode)
+       ELSE DiscoOrder(T, ks[1], mode) \o DiscoOrder(T, ks[2], mode)
+BinarizedT(T) == \A x \in CNodes(T) : Cardinality(Kids(T, x)) <= 2
+C16discoOrder(T, ans) ==     \* ans: sequence of token nodes
+  /\ Len(ans) = T.n /\ SeqToSet(ans) = TNodes(T)
+  /\ (GapDeg(T) = 0 => ans = TokSeq(T, Root(T)))
+\* reports over a treebank TB (sequence of trees): numbers as printed
+C16reportGap(TB, trees, nodes, perTree, perNode) ==    \* perTree / perNode: sequences of <<degree, count>>
+  LET cnt(s, k) == FoldLeft(LAMBDA acc, i : acc + (IF s[i][1] = k THEN s[i][2] ELSE 0), 0, [i \in 1..Len(s) |-> i])
+      tot(s) == FoldLeft(LAMBDA acc, i : acc + s[i][2], 0, [i \in 1..Len(s) |-> i])
+      NC == FoldLeft(LAMBDA acc, i : acc + Cardinality(CNodes(TB[i])), 0, [i \in 1..Len(TB) |-> i])
+      degs == 0..8
+  IN /\ trees = Len(TB) /\ nodes = NC
+     /\ tot(perTree) = trees /\ tot(perNode) = nodes
+     /\ \A k \in degs : cnt(perTree, k) = Cardinality({i \in 1..Len(TB) : GapDeg(TB[i]) = k})
+     /\ \A k \in degs : cnt(perNode, k) =
+          FoldLeft(LAMBDA acc, i : acc + Cardinality({x \in CNodes(TB[i]) : GapDegNode(x) = k}), 0, [i \in 1..Len(TB) |-> i])
+C16reportTags(TB, ntags) == ntags = Cardinality(UNION {{x.a.lab : x \in TNodes(TB[i])} : i \in 1..Len(TB)})
+C16reportCount(TB, n) == n = Len(TB)
+
 (* ---- the model satisfies its own clauses (checked by TLC on MC_Nav) ---- *)
 ModelOK(T) ==
   /\ TreeOK(T)
@@ -95,4 +130,5 @@ ModelOK(T) ==
   /\ C19inverse(T, [x \in T.nodes |-> RefRight(T, x)], [x \in T.nodes |-> RefLeft(T, x)])
   /\ \A a, b \in T.nodes : C19lca(T, a, b, RefLca(T, a, b))
   /\ C19numbering(T, RefNumbering(T))
+  /\ (BinarizedT(T) => C16discoOrder(T, DiscoOrder(T, Root(T), "left")) /\ C16discoOrder(T, DiscoOrder(T, Root(T), "rightd")))
 =============================================================================
